@@ -35,7 +35,7 @@ import (
 	"github.com/dolthub/dolt/go/zzverif/vh"
 )
 
-const c05Rule = "2-4 separately opened table-file stores on one directory (memtable 4KiB/64KiB, manifest pre-created or not) run 10-36 drawn steps: put; commit(fresh root,last=Root()); push-path writeTableFile | addTableFilesToManifest; raw-path persistTable | fileManifest.Update(writeHook); ConjoinTableFiles of 2..n upstream tables; GC table swap (BeginGC, MarkAndSweepChunks keeping every committed chunk, SwapChunksInStore, EndGC, optionally PruneTableFiles); PruneUnreferencedWithGrace(1h) after os.Chtimes ageing of the directory (all old / one file young / untouched); rebase; reopen. At the prune's after-snapshot and under-lock hooks, at Update's writeHook and ParseIfExists' readHook another store's step is run (lock-free steps directly; steps that need the LOCK while it is held either synchronously, expecting the lock timeout, or asynchronously, joined after release). Oracle after every step and at every hook point: parseIfExists succeeds and equals the expected complete version (old inside an update, old-or-new tuple after a step; lock == hash(root,specs)); every spec names an existing table file or .darc; the root is the model's root; a fresh open reads every committed chunk; steps that reported failure left the manifest untouched. Non-trivial: a grace prune unlinked >=1 file while some writer had a persisted-but-unpublished table file; distinct by the hash of (configuration, step sequence with outcomes)."
+const c05Rule = "2-4 separately opened table-file stores on one directory (memtable 4KiB/64KiB, manifest pre-created or not) run 10-36 drawn steps: put; commit(fresh root,last=Root()); push-path writeTableFile | addTableFilesToManifest; raw-path persistTable | fileManifest.Update(writeHook); ConjoinTableFiles of 2..n upstream tables; GC table swap (BeginGC, MarkAndSweepChunks keeping every committed chunk, SwapChunksInStore, EndGC, optionally PruneTableFiles); PruneUnreferencedWithGrace(1h) after os.Chtimes ageing of the directory (all old / one file young / untouched); rebase; reopen. At the prune's after-snapshot and under-lock hooks, at Update's writeHook and ParseIfExists' readHook another store's step is run (lock-free steps directly; steps that need the LOCK while it is held either synchronously, expecting the lock timeout, or asynchronously — the hook returns once the writer is queued on the LOCK, and under the prune lock the writer is preferably one whose unpublished table is a prune candidate — joined after release). Oracle after every step and at every hook point: parseIfExists succeeds and equals the expected complete version (old inside an update, old-or-new tuple after a step; lock == hash(root,specs)); every spec names an existing table file or .darc; the root is the model's root; a fresh open reads every committed chunk; steps that reported failure left the manifest untouched. Non-trivial: a grace prune unlinked >=1 file while some writer had a persisted-but-unpublished table file; distinct by the hash of (configuration, step sequence with outcomes)."
 
 const c05Grace = time.Hour
 
@@ -73,15 +73,16 @@ type c05Async struct {
 }
 
 type c05Case struct {
-	ctx   context.Context
-	t     *testing.T
-	rt    *rapid.T
-	dir   string
-	hs    []*c05Handle
-	gen   *verifMChunkGen
-	ops   []string
-	cls   map[string]bool
-	stats Stats
+	ctx      context.Context
+	t        *testing.T
+	rt       *rapid.T
+	dir      string
+	lockPath string
+	hs       []*c05Handle
+	gen      *verifMChunkGen
+	ops      []string
+	cls      map[string]bool
+	stats    Stats
 
 	root      hash.Hash
 	committed map[hash.Hash][]byte
@@ -455,7 +456,7 @@ func (c *c05Case) rawBegin(h *c05Handle, where string, withReadHook bool) {
 	var readHook func() error
 	if withReadHook {
 		readHook = func() error {
-			c.nested("readHook", h, false)
+			c.nested("readHook", h, false, nil)
 			return nil
 		}
 	}
@@ -489,12 +490,16 @@ func (c *c05Case) rawBegin(h *c05Handle, where string, withReadHook bool) {
 	c.op("%sRb%d(%s)", where, h.idx, verifMShort(tab.name))
 }
 
+func c05RawNext(raw *c05Raw) manifestContents {
+	specs := append(append([]tableSpec{}, raw.base.specs...), tableSpec{name: raw.tab.name, chunkCount: raw.tab.count})
+	return manifestContents{nbfVers: constants.FormatDoltString, root: raw.root, gcGen: raw.base.gcGen, specs: specs,
+		lock: generateLockHash(raw.root, specs, nil, nil)}
+}
+
 func (c *c05Case) rawFinish(h *c05Handle, where string, withWriteHook bool) {
 	raw := h.raw
 	h.raw = nil
-	specs := append(append([]tableSpec{}, raw.base.specs...), tableSpec{name: raw.tab.name, chunkCount: raw.tab.count})
-	next := manifestContents{nbfVers: constants.FormatDoltString, root: raw.root, gcGen: raw.base.gcGen, specs: specs,
-		lock: generateLockHash(raw.root, specs, nil, nil)}
+	next := c05RawNext(raw)
 	var writeHook func() error
 	hookRan := false
 	if withWriteHook {
@@ -511,12 +516,16 @@ func (c *c05Case) rawFinish(h *c05Handle, where string, withWriteHook bool) {
 				c.fatalf("writeHook of handle %d: no temp manifest in the directory", h.idx)
 			}
 			c.check(fmt.Sprintf("inside Update of handle %d (temp written, before rename)", h.idx), true)
-			c.nested("writeHook", h, true)
+			c.nested("writeHook", h, true, nil)
 			return nil
 		}
 	}
-	fm := h.st.manifest
-	got, err := fm.Update(c.ctx, dherrors.FatalBehaviorError, raw.base.lock, next, &c.stats, writeHook)
+	got, err := h.st.manifest.Update(c.ctx, dherrors.FatalBehaviorError, raw.base.lock, next, &c.stats, writeHook)
+	c.applyRaw(h, raw, next, got, err, hookRan, where)
+}
+
+// applyRaw folds the outcome of a raw-path manifest.Update into the model.
+func (c *c05Case) applyRaw(h *c05Handle, raw *c05Raw, next, got manifestContents, err error, hookRan bool, where string) {
 	res := ""
 	published := false
 	switch {
@@ -538,9 +547,10 @@ func (c *c05Case) rawFinish(h *c05Handle, where string, withWriteHook bool) {
 	}
 	c.op("%sRf%d(%s,hook=%v)=%s", where, h.idx, verifMShort(raw.tab.name), hookRan, res)
 	c.cls["raw="+res] = true
-	c.outerMay = published
+	prevOuter := c.outerMay // an enclosing raw update that published keeps counting while a joined step is folded in
+	c.outerMay = prevOuter || published
 	c.joinAsync()
-	c.outerMay = false
+	c.outerMay = prevOuter
 	c.mayPublish = published
 	c.check(fmt.Sprintf("after raw Update by handle %d (%s)", h.idx, res), false)
 	c.mayPublish = false
@@ -670,19 +680,33 @@ func (c *c05Case) prune(h *c05Handle) {
 	}
 	unpub := c.unpublished()
 	hookA := rapid.IntRange(0, 3).Draw(c.rt, "afterSnapshotHook") == 0
-	hookB := rapid.IntRange(0, 2).Draw(c.rt, "underLockHook") == 0
+	hookB := rapid.IntRange(0, 1).Draw(c.rt, "underLockHook") == 0
+	// other stores with a persisted-but-unpublished table that is in the directory now (and so
+	// in the pruner's snapshot)
+	var victims []*c05Handle
+	for _, o := range c.hs {
+		if o == h {
+			continue
+		}
+		for _, owner := range unpub {
+			if owner == o {
+				victims = append(victims, o)
+				break
+			}
+		}
+	}
 	ranA, ranB := false, false
 	if hookA {
 		_testPruneAfterSnapshotHook = func() {
 			ranA = true
-			c.nested("afterSnapshot", h, false)
+			c.nested("afterSnapshot", h, false, nil)
 		}
 	}
 	if hookB {
 		_testPruneUnderLockHook = func() {
 			ranB = true
 			c.check(fmt.Sprintf("under the prune lock of handle %d", h.idx), true)
-			c.nested("underLock", h, true)
+			c.nested("underLock", h, true, victims)
 		}
 	}
 	stats, err := func() (PruneStats, error) {
@@ -724,10 +748,19 @@ func (c *c05Case) prune(h *c05Handle) {
 
 // nested runs one step of another store at a hook point of the store `outer`.
 // lockHeld: the manifest LOCK is held by `outer` for the duration of the hook.
-func (c *c05Case) nested(point string, outer *c05Handle, lockHeld bool) {
+func (c *c05Case) nested(point string, outer *c05Handle, lockHeld bool, victims []*c05Handle) {
 	c.hookSteps++
-	h := c.other(point+".handle", outer)
 	where := "{" + point + ":"
+	if lockHeld && len(victims) > 0 && c.async == nil && rapid.IntRange(0, 9).Draw(c.rt, point+".victim") < 7 {
+		// A writer whose persisted-but-unpublished table is about to be judged by the pruner
+		// starts its manifest update now; the hook returns once that writer is queued on the LOCK.
+		h := victims[rapid.IntRange(0, len(victims)-1).Draw(c.rt, point+".victimIdx")]
+		c.launchAsync(h, where, 0)
+		c.cls["hook="+point] = true
+		c.cls["async_publish_of_prune_candidate"] = true
+		return
+	}
+	h := c.other(point+".handle", outer)
 	k := rapid.IntRange(0, 9).Draw(c.rt, point+".action")
 	switch {
 	case k < 2:
@@ -764,20 +797,70 @@ func (c *c05Case) nested(point string, outer *c05Handle, lockHeld bool) {
 		if c.async != nil {
 			return
 		}
-		a := &c05Async{done: make(chan struct{})}
-		if len(h.files) > 0 && k < 8 {
-			r := c.prepAdd(h)
-			go func() { r = c05ExecAdd(c.ctx, r); close(a.done) }()
-			a.fin = func() { c.applyAdd(r, where+"async:"); c.op("}") }
-		} else {
-			r := c.prepCommit(h)
-			go func() { r = c05ExecCommit(c.ctx, r); close(a.done) }()
-			a.fin = func() { c.applyCommit(r, where+"async:"); c.op("}") }
-		}
-		c.async = a
-		c.cls["async_locked_step"] = true
+		c.launchAsync(h, where, k)
 	}
 	c.cls["hook="+point] = true
+}
+
+// launchAsync starts a publishing step of h (raw-path Update if it has one prepared, push-path
+// add if it has written table files, else a commit) in its own goroutine while the manifest LOCK
+// is held by somebody else, and returns once that goroutine is waiting on the LOCK (it has opened
+// its own descriptor on dir/LOCK), has finished, or 60 ms have passed.
+func (c *c05Case) launchAsync(h *c05Handle, where string, k int) {
+	a := &c05Async{done: make(chan struct{})}
+	base := c05LockFDs(c.lockPath)
+	switch {
+	case h.raw != nil && k < 8:
+		raw := h.raw
+		h.raw = nil
+		next := c05RawNext(raw)
+		var got manifestContents
+		var err error
+		fm := h.st.manifest
+		go func() {
+			got, err = fm.Update(c.ctx, dherrors.FatalBehaviorError, raw.base.lock, next, &Stats{}, nil)
+			close(a.done)
+		}()
+		a.fin = func() { c.applyRaw(h, raw, next, got, err, false, where+"async:"); c.op("}") }
+	case len(h.files) > 0 && k < 8:
+		r := c.prepAdd(h)
+		go func() { r = c05ExecAdd(c.ctx, r); close(a.done) }()
+		a.fin = func() { c.applyAdd(r, where+"async:"); c.op("}") }
+	default:
+		r := c.prepCommit(h)
+		go func() { r = c05ExecCommit(c.ctx, r); close(a.done) }()
+		a.fin = func() { c.applyCommit(r, where+"async:"); c.op("}") }
+	}
+	c.async = a
+	c.cls["async_locked_step"] = true
+	deadline := time.Now().Add(60 * time.Millisecond)
+	for time.Now().Before(deadline) {
+		select {
+		case <-a.done:
+			return
+		default:
+		}
+		if c05LockFDs(c.lockPath) > base {
+			c.cls["async_writer_queued_on_lock"] = true
+			return
+		}
+		time.Sleep(50 * time.Microsecond)
+	}
+}
+
+// c05LockFDs counts this process' open descriptors on the directory's LOCK file.
+func c05LockFDs(lockPath string) int {
+	ents, err := os.ReadDir("/proc/self/fd")
+	if err != nil {
+		return 0
+	}
+	n := 0
+	for _, e := range ents {
+		if l, err := os.Readlink("/proc/self/fd/" + e.Name()); err == nil && l == lockPath {
+			n++
+		}
+	}
+	return n
 }
 
 func (c *c05Case) joinAsync() {
@@ -799,6 +882,11 @@ func c05RunCase(t *testing.T, rt *rapid.T, rec *vh.Recorder) {
 	defer rm()
 	c := &c05Case{ctx: context.Background(), t: t, rt: rt, dir: dir, cls: map[string]bool{}, committed: map[hash.Hash][]byte{},
 		gen: &verifMChunkGen{salt: "c05"}}
+	if real, err := filepath.EvalSymlinks(dir); err == nil {
+		c.lockPath = filepath.Join(real, lockFileName)
+	} else {
+		c.lockPath = filepath.Join(dir, lockFileName)
+	}
 	defer func() {
 		_testPruneAfterSnapshotHook, _testPruneUnderLockHook = nil, nil
 		if c.async != nil {
